@@ -308,7 +308,7 @@ def check_case(case, res):
         return (-1, "building the mesh crashed: " + res["crash"])
     # the finished object (whatever route built it) is inspected through ITS face list
     given = [list(F) for F in case["faces"]]
-    same_routes = ("list", "tuple", "numpy", "from_arrays", "obj", "geogram", "rewrap", "copy", "copy_conn")
+    same_routes = ("list", "tuple", "numpy", "from_arrays", "obj", "geogram", "rewrap", "copy", "copy_conn", "edges_explicit")
     if res.get("route", "list") in same_routes and res["faces"] != given:
         return (-1, "the mesh built through route %s does not store the face list it was given" % res.get("route"))
     case = dict(case, nv=res.get("nv", case["nv"]), faces=res["faces"], script=res.get("script", case.get("script")))
@@ -336,6 +336,13 @@ def check_case(case, res):
         if not ok:
             return (k, "query %d %s answered %s; direct inspection of the face list gives %s%s"
                     % (k, q, o, want, {"set": " (as a set)", "rot": " (up to rotation)"}.get(mode, "")))
+    # a second mesh of the session (two triangles) must answer the same before, during and after the script
+    if res.get("decoy"):
+        want = [["int", 0], ["list", [0, 3]], ["list", [0, 1, 3, 4]], ["int", 3], ["list", []]]
+        for j, d in enumerate(res["decoy"]):
+            if d != want:
+                return (-3, "another mesh of the same session answered %s at observation %d, direct inspection of its face list gives %s"
+                        % (d, j, want))
     # alignment of the four rings of a vertex (one common rotation, not one per accessor)
     for ring in res.get("rings", []):
         if ring[0] == "err":
